@@ -320,6 +320,14 @@ def len_utf8(it, ch):
 
 def to_digit(it, ch, radix):
     ch = deref(ch)
+    if is_sym(ch):
+        e = it.ghost.get('_digitval', {}).get(ch.get_id())
+        if e is not None:
+            # a digit produced by a printer model (models_fmtnum) is consumed by real code: its defining equation is needed now
+            p = it.ghost.get('_pending_defs')
+            if p:
+                it.assume(z3.And(*p)); del p[:]
+            if e[2] <= radix: return mk_some(e[1])
     if not is_sym(ch):
         c = chr(ch)
         try:
